@@ -1,10 +1,11 @@
 package main
 
-// Exploratory probe (not part of any check stream): overlapping API calls at start-up.
+// Overlapping API calls at start-up (stream of C14, real scheduler).
 //   vh lifeprobe -n <trials>
 // Each trial starts DoListen on a controlled listener and, concurrently, a Bind on another address; it reports how
 // often the Bind slipped between DoListen's read of the listener and its `running = true` (the Bind is not refused,
-// DoListen serves the old listener, Shutdown closes only the new one and DoListen does not return).
+// DoListen serves the old listener, Shutdown closes only the new one and DoListen does not return). Since fix
+// a1069ea both are single critical sections and this must never happen: the Bind is refused or comes first.
 
 import (
 	"context"
